@@ -123,8 +123,14 @@ def run(tier, seed):
             same = [{"id": b"shared-credential-id", "transports": t} for t in (["usb", "nfc"], ["nfc", "usb"], ["ble"], ["ble", "ble"], ["hybrid", "internal", "hybrid"], None, [])]
             rng.shuffle(same)
             a["exclude" if is_reg else "allow"] = same[: rng.randrange(2, len(same) + 1)]
-        o = webauthn.generate_registration_options(**optsim.reg_kwargs(a)) if is_reg else webauthn.generate_authentication_options(**optsim.auth_kwargs(a))
-        text = options_to_json(o)
+        arg_shape = optsim.SHAPES[i % len(optsim.SHAPES)]          # (caller values as plain ints / str subclasses / members of the caller's own enums: every generator-reachable object has a JSON text)
+        o = webauthn.generate_registration_options(**optsim.shaped(optsim.reg_kwargs(a), arg_shape)) if is_reg else webauthn.generate_authentication_options(**optsim.shaped(optsim.auth_kwargs(a), arg_shape))
+        try:
+            text = options_to_json(o)
+        except Exception as e:
+            chk.violation(f"options_to_json raises {type(e).__name__} on options produced by option generation (arguments given as {arg_shape})", f"to-json-raises {'reg' if is_reg else 'auth'} {arg_shape}",
+                          {"entry": "options_to_json", "argument_shape": arg_shape, "exception": repr(e)[:200], "args": {k: (v.hex() if isinstance(v, bytes) else v) for k, v in a.items() if k not in ("exclude", "allow")}})
+            continue
         j = json.loads(text)
         chk.evals += 1
         rp = {"entry": "options_to_json", "args": {k: (v.hex() if isinstance(v, bytes) else v) for k, v in a.items() if k not in ("exclude", "allow")}, "json": text[:800]}
@@ -189,6 +195,14 @@ def run(tier, seed):
                     if il != LIB_IJS:
                         chk.violation(f"required member {'.'.join(path)} missing / of wrong type not refused with the structure exception: {il[:60]}",
                                       f"refusal {'.'.join(path)} {type(v).__name__} {il[:40]}", {"input": d, "impl": il[:200]})
+            # a list entry with an unknown transport is refused with the structure exception whatever a LATER entry of the same list looks like
+            lkey = "excludeCredentials" if is_reg else "allowCredentials"
+            for later in ({"id": "QUJDR", "type": "public-key"}, 5, None, {"type": "public-key"}, {"id": "AQ", "type": "public-key", "transports": "usb"}):
+                d = copy.deepcopy(j)
+                d[lkey] = [{"id": "AQ", "type": "public-key", "transports": ["usb", "teleport"]}, later]
+                il = parse_both(is_reg, d if rng.random() < 0.5 else json.dumps(d))
+                if il != LIB_IJS:
+                    chk.violation(f"a descriptor with an unknown transport, followed by another faulty entry, is not refused with the structure exception: {il[:60]}", f"refusal-order {lkey} {il[:40]}", {"input": d, "impl": il[:200]})
             enums = ([("attestation",), ("authenticatorSelection", "authenticatorAttachment"), ("authenticatorSelection", "residentKey"),
                       ("authenticatorSelection", "userVerification"), ("hints", 0), ("excludeCredentials", 0, "transports", 0), ("pubKeyCredParams", 0, "alg")]
                      if is_reg else [("userVerification",), ("allowCredentials", 0, "transports", 0)])
